@@ -21,6 +21,7 @@ import (
 	"fmt"
 	"io"
 	"log/slog"
+	"os"
 	"runtime"
 	"runtime/debug"
 	"sort"
@@ -925,6 +926,9 @@ func (r *runner) write(o opJ, del bool) error {
 			return err
 		}
 	}
+	if s.state != "live" {
+		return nil // abandoned meanwhile (it lost a table file)
+	}
 	k, v := toBytes(o.K), toBytes(o.V)
 	w.universe[string(k)] = k
 	before := s.db.VerifMemtableCount()
@@ -1068,7 +1072,7 @@ func (r *runner) restore(o opJ) error {
 		r.tag("restore-chain")
 	}
 	r.emit(stepOut{op: fmt.Sprintf("ORestore %d %d %s %s %s", s.idx, o.ID, hx.CoqBool(o.Same), ownC, nbC), read: &ro})
-	if src.state == "live" {
+	if s.state == "live" && (src.state == "live" || ro.Outcome != 0) {
 		// the database that created the tables lives on: the restored object is only a probe of the handle (two objects that
 		// both believe they own the same created tables is not a deployment the properties talk about)
 		s.state = "crashed"
@@ -1177,6 +1181,14 @@ func (r *runner) gc() stepOut {
 }
 
 func execute(c *hx.Case) (*hx.Result, error) {
+	if os.Getenv("CKPT_DEBUG") != "" {
+		defer func() {
+			if p := recover(); p != nil {
+				fmt.Fprintf(os.Stderr, "panic: %v\n%s\n", p, debug.Stack())
+				panic(p)
+			}
+		}()
+	}
 	ops, err := decodeOps(c)
 	if err != nil {
 		return nil, err
@@ -1226,6 +1238,9 @@ func execute(c *hx.Case) (*hx.Result, error) {
 			}
 			if err := r.drainOthers(s); err != nil {
 				return fail(err)
+			}
+			if s.state != "live" {
+				continue
 			}
 			usedIDs[o.ID] = true
 			if r.busy() {
@@ -1295,6 +1310,17 @@ func execute(c *hx.Case) (*hx.Result, error) {
 			for _, k := range o.IDs {
 				newest = max(newest, k)
 			}
+			inflightDropped := false
+			for id := range s.ckpts {
+				listed := id > newest
+				for _, k := range o.IDs {
+					listed = listed || k == id
+				}
+				inflightDropped = inflightDropped || !listed
+			}
+			if inflightDropped {
+				continue // dropping a checkpoint whose asynchronous part has not finished (its WAL file is still being written) is outside the histories considered: the job only drops completed checkpoints
+			}
 			for id := range s.ids {
 				found := id > newest
 				for _, k := range o.IDs {
@@ -1335,6 +1361,9 @@ func execute(c *hx.Case) (*hx.Result, error) {
 			if err := r.drainOthers(s); err != nil {
 				return fail(err)
 			}
+			if s.state != "live" {
+				continue
+			}
 			if w.tasksOf(s) > 0 {
 				r.tag("crash-with-tasks-parked")
 			}
@@ -1353,6 +1382,9 @@ func execute(c *hx.Case) (*hx.Result, error) {
 			}
 			if err := r.drain(s, 0, false); err != nil {
 				return fail(err)
+			}
+			if s.state != "live" {
+				continue
 			}
 			s.state = "dropped"
 			s.db, s.waits = nil, nil
